@@ -721,19 +721,36 @@ theorem reported_line_correct_consolidated_partial (c : FieldCaller) (sl : Nat) 
   push_cast
   omega
 
-/-- a cross-reference in a definition-list *classifier* always gets offset 0: it is reported on the
-docstring's first line, wherever the entry is.
-Full statement wanted: reported line = `sl + raw` (the entry's line). -/
-theorem classifier_xref_on_first_line (sl : Nat) (doc : List Char) (ln : Int) (im : Bool) (hs : 0 < sl) :
-    report (docObj sl doc ln im) .xref classifierXrefOffset = .num (extractLinenum sl doc : Nat) := by
+/-- a cross-reference in a definition-list *classifier* is reported on the entry's line
+(under the layout hypothesis) — holds since pydoctor c88d52b -/
+theorem classifier_xref_line_correct_partial (sl : Nat) (doc : List Char) (ln : Int) (im : Bool)
+    (raw : Nat) (hs : 0 < sl) (hl : noOverIndent doc = true) (ht : hasText doc = true)
+    (hr : dropped doc ≤ raw) :
+    report (docObj sl doc ln im) .xref
+      (classifierXrefOffset docutilsBase ((raw : Int) - (dropped doc : Nat))) = .num ((sl : Int) + raw) := by
   rw [report_docstring _ _ _ (Or.inr rfl) (docObj_lineno_ne sl doc ln im hs)]
-  simp [docObj, classifierXrefOffset, getLineno, truthy, firstParentLineno]
+  have h1 : (raw : Int) - (dropped doc : Nat) + 1 ≠ 0 := by omega
+  simp only [docObj, docstring_lineno_correct_partial sl doc hl ht, classifierXrefOffset, callerLine,
+    docutilsBase, getLineno, truthy, firstParentLineno]
+  simp [h1]
+  push_cast
+  omega
 
-/-- `:Parameters:` on raw line 3 with entry ``a : `T` `` on raw line 4 (physical 6): reported on 3. -/
-theorem classifier_xref_counterexample :
+example : let doc := "\n    Sum.\n\n    :Parameters:\n      a : `T`\n        text\n    ".toList
+    report (docObj 2 doc 1 false) .xref (classifierXrefOffset docutilsBase (4 - (dropped doc : Nat))) = .num 6 := by
+  decide
+
+/-- historical (before c88d52b): offset 0, i.e. the docstring's first line wherever the entry is -/
+theorem classifier_xref_on_first_line_old (sl : Nat) (doc : List Char) (ln : Int) (im : Bool) (hs : 0 < sl) :
+    report (docObj sl doc ln im) .xref classifierXrefOffsetOld = .num (extractLinenum sl doc : Nat) := by
+  rw [report_docstring _ _ _ (Or.inr rfl) (docObj_lineno_ne sl doc ln im hs)]
+  simp [docObj, classifierXrefOffsetOld, getLineno, truthy, firstParentLineno]
+
+/-- historical witness: entry ``a : `T` `` on raw line 4 (physical 6) was reported on line 3 -/
+theorem classifier_xref_old_counterexample :
     let doc := "\n    Sum.\n\n    :Parameters:\n      a : `T`\n        text\n    ".toList
     noOverIndent doc = true ∧
-      report (docObj 2 doc 1 false) .xref classifierXrefOffset = .num 3 ∧ (2 : Int) + 4 ≠ 3 := by decide
+      report (docObj 2 doc 1 false) .xref classifierXrefOffsetOld = .num 3 ∧ (2 : Int) + 4 ≠ 3 := by decide
 
 /-! ### **shift** -/
 
